@@ -982,6 +982,41 @@ func (w *World) callerGuardsRelPathD(cs *Site, arg ssa.Value, rp string, depth i
 			}
 		}
 	}
+	// the check was extracted into a helper that is handed a component of the record (`validateMintersNotNil(params.Minters)`):
+	// the call lies on the helper's success edge and the helper rejects nil at the rest of the path under its parameter
+	for _, s2 := range w.CG().Sites[fn] {
+		if s2 == cs || len(s2.Callees) != 1 || s2.Invoke {
+			continue
+		}
+		h := s2.Callees[0]
+		call := siteValue(s2)
+		if call == nil || h.Blocks == nil || !OnSuccessEdge(fn, cs.Instr, call) {
+			continue
+		}
+		for i, a2 := range s2.Common().Args {
+			if i >= len(h.Params) {
+				continue
+			}
+			pfx, ok := relPathTo(a2, isRoot)
+			if !ok || pfx == "" || !strings.HasPrefix(rp, pfx) || len(rp) == len(pfx) {
+				continue
+			}
+			rest := rp[len(pfx):]
+			if rest == "[*]" {
+				for _, ec := range elementLoopChecks(h) {
+					if ec.Over == ssa.Value(h.Params[i]) {
+						return true
+					}
+					if got, ok := relPathTo(ec.Over, paramRoot(h, h.Params[i])); ok && got == "" {
+						return true
+					}
+				}
+			}
+			if w.helperRejectsNilAt(h, h.Params[i], rest) {
+				return true
+			}
+		}
+	}
 	// element field: "<container>[*]<rest>": a loop over <container> hands every element to a helper that rejects a nil
 	// <rest> under it, fails when the helper fails, and is finished before this call
 	if i := strings.Index(rp, "[*]"); i >= 0 && strings.Count(rp, "[*]") == 1 && rp[i+3:] != "" {
